@@ -174,6 +174,9 @@ def sub(a, b):
     return ('-', a, b)
 
 
+sub_ = sub
+
+
 def mk_bin(op, a, b):
     if op == '+':
         return add(a, b)
@@ -430,6 +433,7 @@ class Engine:
         self.clobber_pre = {}        # havoc atom -> value the location had before the clobbering call
         self.clobber_origin = {}     # havoc atom -> location it stands for (value after a call that may have written it)
         self.restore_invariants = True
+        self.index_pointer_walks = True
         self.definitions = {}        # result term of a call to a side-effect free, single-path accessor -> the value it computes
         self.auto_inline = True      # inline helpers that did not exist when the rules were written (known_functions.json)
         self.auto_inlined = set()
@@ -513,6 +517,8 @@ class Engine:
         self.npaths += len(out)
         if self.restore_invariants:
             self._restore_invariants(out)
+        if self.index_pointer_walks:
+            self._index_pointer_walks(out)
         return out
 
     def _restore_invariants(self, out):
@@ -546,47 +552,161 @@ class Engine:
                 if nxt == sub:
                     break
                 sub = nxt
-            hs = set(sub)
+            self._subst_paths(out, sub)
 
-            def S(t):
-                return substitute(t, sub) if isinstance(t, tuple) and any(x in hs for x in subterms(t)) else t
-            done = set()
-            for p in out:
-                if id(p.mem) not in done:
-                    done.add(id(p.mem))
-                    new = {S(k): S(v) for k, v in p.mem.items()}
-                    p.mem.clear()
-                    p.mem.update(new)
-                if id(p.conds) not in done:
-                    done.add(id(p.conds))
-                    p.conds[:] = [(S(c), n) for c, n in p.conds]
-                for e in p.effects:
-                    if id(e) in done:
+    def _subst_paths(self, out, sub, post=None):
+        """replace havoc values by terms in everything the paths carry (memory, conditions, effects, results, loop maps) and
+        in the engine's side tables; post: a rewrite applied to every term the substitution changed"""
+        hs = set(sub)
+
+        def S(t):
+            if isinstance(t, tuple) and any(x in hs for x in subterms(t)):
+                t = substitute(t, sub)
+                return post(t) if post else t
+            return t
+        done = set()
+        for p in out:
+            if id(p.mem) not in done:
+                done.add(id(p.mem))
+                new = {S(k): S(v) for k, v in p.mem.items()}
+                p.mem.clear()
+                p.mem.update(new)
+            if id(p.conds) not in done:
+                done.add(id(p.conds))
+                p.conds[:] = [(S(c), n) for c, n in p.conds]
+            for e in p.effects:
+                if id(e) in done:
+                    continue
+                done.add(id(e))
+                e.args = tuple(S(a) for a in e.args)
+                if isinstance(e.result, tuple):
+                    e.result = S(e.result)
+                if isinstance(e.name, tuple):
+                    e.name = S(e.name)
+                if isinstance(e.extra, tuple):
+                    e.extra = S(e.extra)
+            if isinstance(p.ret, tuple):
+                p.ret = S(p.ret)
+            for node, lmap in p.loops:
+                if id(lmap) in done:
+                    continue
+                done.add(id(lmap))
+                for k in list(lmap):
+                    h, pre = lmap[k]
+                    if h in hs:
+                        lmap[k] = (sub[h], pre)          # the variable is this term throughout
+                    elif isinstance(pre, tuple):
+                        lmap[k] = (h, S(pre))
+        for d in (self.types, self.optype, self.clobber_pre, self.clobber_origin):
+            for k in list(d):
+                if isinstance(k, tuple) and any(x in hs for x in subterms(k)):
+                    d.setdefault(S(k), d[k] if not isinstance(d[k], tuple) else S(d[k]))
+
+    def _index_pointer_walks(self, out):
+        """A loop variable of pointer type that starts at a known position and that EVERY iteration moves by exactly one
+        element (`for (T *a = base; a < base + n; ++a)`) is base +- K at the loop head, K being the number of iterations
+        completed - by induction.  The havoc value of the pointer is replaced by that term and K is entered into the loop
+        map as a counter of its own (start 0, step +1), so a walk by pointer reads like the walk by index it is."""
+        info = {}
+        for p in out:
+            for node, lmap in p.loops:
+                for k, (h, pre) in lmap.items():
+                    if pre is None or not isinstance(h, tuple) or h[0] != 'h' or contains(pre, h) or h == pre:
                         continue
-                    done.add(id(e))
-                    e.args = tuple(S(a) for a in e.args)
-                    if isinstance(e.result, tuple):
-                        e.result = S(e.result)
-                    if isinstance(e.name, tuple):
-                        e.name = S(e.name)
-                    if isinstance(e.extra, tuple):
-                        e.extra = S(e.extra)
-                if isinstance(p.ret, tuple):
-                    p.ret = S(p.ret)
-                for node, lmap in p.loops:
-                    if id(lmap) in done:
+                    qt = self.types.get(k) or self.types.get(h) or ''
+                    if not qt.rstrip().endswith('*') and '*const' not in qt.replace(' ', ''):
                         continue
-                    done.add(id(lmap))
-                    for k in list(lmap):
-                        h, pre = lmap[k]
-                        if h in hs:
-                            lmap[k] = (sub[h], pre)          # the variable is its pre-loop value throughout
-                        elif isinstance(pre, tuple):
-                            lmap[k] = (h, S(pre))
-            for d in (self.types, self.optype, self.clobber_pre, self.clobber_origin):
-                for k in list(d):
-                    if isinstance(k, tuple) and any(x in hs for x in subterms(k)):
-                        d.setdefault(S(k), d[k] if not isinstance(d[k], tuple) else S(d[k]))
+                    info.setdefault(h, {'k': k, 'pre': pre, 'step': None, 'ok': True, 'node': node, 'n': 0})
+        if not info:
+            return
+        for p in out:
+            if p.end != 'loopback' or not p.loops:
+                continue
+            for node, lmap in p.loops:
+                if node is not p.node:
+                    continue
+                for k, (h, pre) in lmap.items():
+                    i = info.get(h)
+                    if i is None:
+                        continue
+                    v = mem_read(p.mem, k, h)
+                    while isinstance(v, tuple) and v[0] == 'cast':
+                        v = v[2]
+                    try:
+                        d = linearize(v) - linearize(h)
+                    except Exception:          # noqa: BLE001
+                        i['ok'] = False
+                        continue
+                    if not d.is_const() or d.c not in (1, -1) or i['step'] not in (None, d.c):
+                        i['ok'] = False
+                    else:
+                        i['step'] = d.c
+                        i['n'] += 1
+        # a loop-carried pointer of an outer loop that an inner loop's back edge passes by unchanged is not judged there
+        sub, Ks, start = {}, {}, {}
+        for h, i in info.items():
+            if not i['ok'] or i['step'] is None:
+                continue
+            pre = i['pre']
+            while isinstance(pre, tuple) and pre[0] == 'cast' and '*' in pre[1]:
+                pre = pre[2]
+            if pre[0] == '+' and len(pre) == 3 and '*' in (self.types.get(pre[1]) or ('*' if pre[1][0] in ('f', 'v', '&') else '')):
+                base, s0 = pre[1], pre[2]
+            else:
+                base, s0 = pre, C(0)
+            K = fresh('%s#index' % h[1])
+            self.types[K] = 'unsigned long'
+            Ks[h] = (K, i['step'])
+            start[h] = s0
+            sub[h] = add(base, K)
+        if not sub:
+            return
+        for _c in range(8):
+            nxt = {h: substitute(v, sub) for h, v in sub.items()}
+            if nxt == sub:
+                break
+            sub = nxt
+        # the position as a loop variable of its own: starts at the walk's start index, moves by the pointer's step
+        seen = set()
+        for p in out:
+            for node, lmap in p.loops:
+                for k, (h, pre) in list(lmap.items()):
+                    if h in Ks:
+                        K, step = Ks[h]
+                        kidx = ('v', '#index(%s)' % fmt(k))
+                        self.types[kidx] = 'unsigned long'
+                        if id(lmap) not in seen:
+                            lmap[kidx] = (K, substitute(start[h], sub))
+                        if p.end == 'loopback' and node is p.node:
+                            p.mem[kidx] = add(K, C(step))
+                seen.add(id(lmap))
+        idxs = {K for K, _ in Ks.values()}
+
+        def split(t):
+            while isinstance(t, tuple) and t[0] == 'cast' and '*' in t[1]:
+                t = t[2]
+            if isinstance(t, tuple) and t[0] == '+' and len(t) == 3:
+                b, x = split(t[1])
+                return b, add(x, t[2])
+            return t, C(0)
+
+        def post(t):
+            """comparisons and differences of two positions in the same array are comparisons / differences of indices"""
+            if not isinstance(t, tuple) or not any(x in idxs for x in subterms(t)):
+                return t
+            t = tuple(post(x) if isinstance(x, tuple) else x for x in t)
+            if t[0] == 'cmp' and isinstance(t[2], tuple) and isinstance(t[3], tuple):
+                (b1, x1), (b2, x2) = split(t[2]), split(t[3])
+                if b1 == b2 and (x1 != C(0) or x2 != C(0)) and (any(x in idxs for x in subterms(x1)) or any(x in idxs for x in subterms(x2))):
+                    return ('cmp', t[1], x1, x2)
+            if t[0] == '-' and len(t) == 3 and isinstance(t[1], tuple) and isinstance(t[2], tuple):
+                (b1, x1), (b2, x2) = split(t[1]), split(t[2])
+                if b1 == b2 and b1 != C(0) and any(x in idxs for x in subterms(t[1])):
+                    return sub_(x1, x2)
+            if t[0] == '+' and len(t) == 3 and isinstance(t[1], tuple) and t[1][0] == '+' and len(t[1]) == 3 and t[1][2] in idxs and is_c(t[2]):
+                return t          # position + constant stays as it is (linear forms read it)
+            return t
+        self._subst_paths(out, sub, post)
 
     def is_pure(self, name, _stack=()):
         """syntactic purity: the function (and everything it calls) never stores through
@@ -1230,6 +1350,14 @@ class _Activation:
                 d = td.get('desugaredQualType') or td.get('qualType') or ''
                 if d.startswith('struct ') or d.startswith('union '):
                     name = d.split(' ', 1)[1]
+                else:
+                    # typedef struct {...} Name;  (the record itself has no name)
+                    for u in self.e.units:
+                        rid = getattr(u, 'typedef_record', {}).get(qt)
+                        r = u.record_by_id.get(rid) if rid else None
+                        if r:
+                            return [(f['name'], cast.qual_type(f)) for f in cast.inner(r)
+                                    if cast.kind(f) == 'FieldDecl' and 'name' in f]
         if name is None:
             return None
         for u in self.e.units:
@@ -1773,6 +1901,19 @@ class _Activation:
         qt = self.e.types.get(key, '')
         if v is not None and v[0] == 'struct' and False:
             pass
+        # `*p = value` for a pointer to a record is the assignment of every field of p's object: written field by field
+        # (`p->f = value.f`), the form in which the rest of the code - and every rule - speaks about the object
+        if key[0] == 'i' and key[2] == C(0) and key[1][0] != '&' and node is not None and isinstance(v, tuple) \
+                and (v[0] == 'struct' or (v[0] == 'i' and v[2] == C(0))):
+            rf = self.record_fields(cast.qual_type(node)) if cast.kind(node) in ('BinaryOperator',) and node.get('opcode') == '=' else None
+            if rf:
+                for f, fqt in rf:
+                    fv = ('f', v[1], f) if v[0] == 'i' else self.field_of(v, f)
+                    if v[0] == 'i':
+                        fv = self.read(st, fv)
+                    self.e.types.setdefault(('f', key[1], f), fqt)
+                    self.assign(st, ('f', key[1], f), fv, node, record)
+                return
         # whole-struct assignment clears field overrides
         for kk in [kk for kk in st.mem if kk != key and rooted_at(kk, ('&', key))]:
             del st.mem[kk]
